@@ -1311,7 +1311,11 @@ func init() {
 				}
 				in := mkInst("vhC09", cfg, "dtype", "routine", "sa", "sb", "la", "lb", "mode", "api")
 				if extra != nil {
-					in.Name += fmt.Sprintf("/%v-%v", extra["axesA"], extra["axesB"])
+					if _, ok := extra["chain"]; ok {
+						in.Name += fmt.Sprintf("/ld=%v/chain", extra["ld"])
+					} else {
+						in.Name += fmt.Sprintf("/%v-%v", extra["axesA"], extra["axesB"])
+					}
 				}
 				in.Ring = true
 				out = append(out, in)
@@ -1359,6 +1363,14 @@ func init() {
 					add("Trace", mm[0], nil, la, "C", "", "method", nil)
 				}
 			}
+			// destinations that carry a lazy transposition, then used as the operand of a second product
+			for _, mm := range [][2][]int{{{2, 3}, {3, 2}}, {{2, 3}, {3, 3}}} {
+				for _, api := range []string{"method", "func", "dot"} {
+					add("MatMul", mm[0], mm[1], "C", "C", "reuse", api, map[string]interface{}{"ld": "T", "chain": 1})
+					add("MatMul", mm[0], mm[1], "LT", "C", "reuse", api, map[string]interface{}{"ld": "C", "chain": 1})
+				}
+			}
+			add("Outer", []int{2}, []int{3}, "C", "C", "reuse", "method", map[string]interface{}{"ld": "T", "chain": 1})
 			type tm struct {
 				sa, sb []int
 				aa, ab []int
